@@ -137,6 +137,8 @@ def chunkings(rng, n):
 def run(ctx):
     rng = random.Random(ctx["seed"] * 7919 + 1)
     res = Result("C01")
+    import pycode  # translator validation: generated Lean definitions vs the real functions (harness/pycode.py)
+    pycode.check(res, random.Random(ctx["seed"] * 7919 + 77), ctx["tier"], ["frame", "reader"])
     res.rule = ("streams: every frame kind x boundary payload sizes; single-byte corruptions at every position; "
                 "XOR-preserving paired flips; the same delta on 2-4 positions of the whole frame incl. the end delimiter; XOR-zero / stored-zero checksum corruptions; truncations at every length; "
                 "noise (uniform, delimiter-dense, header-shaped); mixed streams; each under 3 chunkings. "
